@@ -18,9 +18,9 @@ import (
 
 	"github.com/whoisnian/glb/httpd"
 	"github.com/whoisnian/glb/logger"
-	"github.com/whoisnian/glb/zzverif/vsched"
-	"github.com/whoisnian/glb/zzverif/vtime"
 	"verif/engine/sdrive"
+	"verif/engine/shim/vsched"
+	"verif/engine/shim/vtime"
 	"verif/engine/vcommon"
 	"verif/engine/voracle"
 )
